@@ -515,6 +515,11 @@ func c08GenStreams(c *Ctx, n int) []c08Stream {
 	for _, f := range files {
 		out = append(out, c08Stream{f, "file"})
 	}
+	// the inputs of the theorems Props.C08.line_count_quirks and of the non-vacuity example,
+	// replayed on the real scanner (compared with the model like every other source)
+	for _, f := range []string{"\"a\nb\" x", "#\xff", "in x\n#\n$"} {
+		out = append(out, c08Stream{f, "theorem-witness"})
+	}
 	breaking := map[string]bool{}
 	for _, p := range c08StreamPieces {
 		if _, toks, _, pn := c08GoLex(p + " "); pn == "" && len(toks) > 0 && toks[len(toks)-1].Id == syntax.VerifTokINVALID {
